@@ -35,6 +35,8 @@ type cancelScenario struct {
 	Seq      int    `json:"seq"`      // sched modes: number of pipelines run one after another on the same runner
 	Log      string `json:"log"`
 	Cond     string `json:"cond"`
+	// Nested (sched modes): the stages make up a pipeline that a stage of the pipeline being run INCLUDES
+	Nested bool `json:"nested"`
 }
 
 type cancelObs struct {
@@ -55,7 +57,7 @@ type cancelObs struct {
 }
 
 func (s cancelScenario) String() string {
-	return fmt.Sprintf("mode=%s inflight=%d waiting=%d point=%s allow=%v timeout=%v pre=%s seq=%d", s.Mode, s.Inflight, s.Waiting, s.Point, s.Allow, s.Timeout, s.Pre, s.Seq)
+	return fmt.Sprintf("mode=%s inflight=%d waiting=%d point=%s allow=%v timeout=%v pre=%s seq=%d in-an-included-pipeline=%v", s.Mode, s.Inflight, s.Waiting, s.Point, s.Allow, s.Timeout, s.Pre, s.Seq, s.Nested)
 }
 
 func appendLine(path, s string) {
@@ -328,6 +330,13 @@ func cancelChild(args []string) {
 			fmt.Fprintln(os.Stderr, err)
 			os.Exit(3)
 		}
+		if sc.Nested {
+			g, err = scheduler.NewExecutionGraph(&scheduler.Stage{Name: "inc", Pipeline: g}, &scheduler.Stage{Name: "after-inc", Task: longTask("w-after-inc", sc.Log, sleepTag, sc), DependsOn: []string{"inc"}})
+			if err != nil {
+				fmt.Fprintln(os.Stderr, err)
+				os.Exit(3)
+			}
+		}
 		sd := scheduler.NewScheduler(r)
 		sd.VerifSetPause(time.Millisecond)
 		schedDone := make(chan error, 1)
@@ -547,6 +556,11 @@ func genCancelScenarios(tier string, rng *rand.Rand) []cancelScenario {
 			out = append(out, cancelScenario{Mode: "sched-conderr", Inflight: inflight, Waiting: waiting, Point: "in-command"})
 		}
 	}
+	// the same inside a pipeline included by a stage of the pipeline being run
+	out = append(out, cancelScenario{Mode: "sched-conderr", Inflight: 0, Waiting: 1, Point: "in-command", Nested: true},
+		cancelScenario{Mode: "sched-conderr", Inflight: 2, Waiting: 1, Point: "in-command", Nested: true},
+		cancelScenario{Mode: "sched", Inflight: 2, Waiting: 1, Point: "in-command", Nested: true},
+		cancelScenario{Mode: "sched", Inflight: 1, Waiting: 0, Point: "twice", Nested: true})
 	return out
 }
 
